@@ -461,7 +461,7 @@ def exNasT : NasT Int where
   phg := [(0, ⟨[[2], [3], [5]], 1⟩)]
 
 theorem exNasT_ulvs : formulvs exKey2 exMasks2 exNasT none 10 0 true true false = .ok (.mat ⟨[[2], [5]], 1⟩) := by
-  simp [formulvs, ulvsLoop, ulvsLevel, formtran, formtran0, upasetpv, upMask, idMask, applyMaps, findse, lookupD, exNasT,
+  simp [formulvs, ulvsLoop, ulvsLevel, formtran, formtran0, formtran0With, procMsetWith, iddofG, rowsOfMask, upasetpv, upMask, idMask, applyMaps, findse, lookupD, exNasT,
     dotU, mkdofpv, mksetpv, expanddof, expanddof2, expandRow, digits, digitsRev, mkdofpvKeys, argsort,
     lookup, searchsortedLeft, key, List.mergeSort, List.zipIdx, List.MergeSort.Internal.splitInTwo,
     exMasks2, Masks.ofTable, mask, v_p, v_g, v_n, v_f, v_a, v_q, v_r, v_b, v_c, v_o, v_s, v_m, v_e, v_l, v_t,
@@ -494,7 +494,7 @@ example : ∃ drm, formdrm exKey2 exMasks2 exNasT none 10 (.rows [(2, 0)]) 0 fal
   refine ⟨⟨[[5]], 1⟩, ?_⟩
   unfold formdrm
   rw [exNasT_ulvs]
-  simp [formtran, formtranUp, lookupD, exNasT, mkdofpv, mksetpv, expanddof, expanddof2, expandRow, digits, digitsRev,
+  simp [formtran, formtranUp, formtranUpWith, upSelectWith, procMsetWith, iddofG, rowsOfMask, lookupD, exNasT, mkdofpv, mksetpv, expanddof, expanddof2, expandRow, digits, digitsRev,
     mkdofpvKeys, argsort, lookup, searchsortedLeft, key, List.mergeSort, List.zipIdx, List.MergeSort.Internal.splitInTwo,
     exMasks2, Masks.ofTable, mask, v_p, v_g, v_n, v_f, v_a, v_q, v_r, v_b, v_c, v_o, v_s, v_m, v_e, v_l, v_t,
     inSet, liftE, setPos, positions, takeIdx, unitRow, dot, rowComb, addRow, smulRow, zeroRow, anyFrom,
